@@ -39,3 +39,10 @@ PROP = dict(
         "real-transaction cases (EvmKeeper.EthereumTx): nobody pays the fee at keeper level, so the harness puts gasLimit*gasPrice into the fee collector first, and the part ethermint's RefundGas returns to the sender after the hooks (checked to be exactly (gasLimit-gasUsed)*gasPrice) is added back to the observed collector balance; receipt.GasUsed is ethermint's max(gasLimit*MinGasMultiplier, consumed)",
     ],
 )
+
+# library-level correspondence (Lib/SdkInt.v, Lib/SdkDec.v against the real cosmossdk.io/math), suite LIB
+PROP["suites"] = list(PROP["suites"]) + ["LIB"]
+PROP["coq"] = list(PROP["coq"]) + ["Check/LibCheck"]
+PROP["codes"]["LIB"] = {1: ("sdkmath-Int-operation-differs-from-SdkInt", "mismatch"),
+                        2: ("sdkmath-LegacyDec-operation-differs-from-SdkDec", "mismatch"),
+                        3: ("checked-and-unchecked-power-differ", "mismatch")}
